@@ -19,6 +19,7 @@ From GX.Model Require Import Base CMS Bloom HLL Cuckoo Heap TopK Codec Persist.
 From GX.Model Require Import Redis RedisCMS RedisHLL RedisBloom RedisCuckoo RedisTopK.
 From GX.Proofs Require Import ListLemmas JsonProofs EqualsProofs CuckooInv BloomCodec DocProofs RedisCMSRefine.
 From GX.Proofs Require Import HLLProofs RedisHLLRefine RedisCuckooInv TopKInv TopKRedisInv RedisDocProofs RedisCuckooDoc RedisTopKDoc.
+From GX.Proofs Require Import NonVacuity.
 From Coq Require Import ZArith.
 
 Theorem C10_cms_roundtrip : forall s key, imp_cms (doc_cms s key) = Ok s.
@@ -130,6 +131,9 @@ Theorem C10_redis_topk_heap_roundtrip : forall (cpos : N -> N -> bytes -> list N
   exists t' s', rtrun cpos s t ins = (Ok t', s') /\
     r_zset (rtopk_import_heap s2 hkey' (heap_of s' t')) hkey' = heap_of s' t'.
 Proof. exact redis_topk_heap_roundtrip. Qed.
+
+Example C10_redis_topk_premises_hold : zstrict [([120], 1); ([97], 2); ([98], 2)].
+Proof. exact zstrict_inhabited. Qed.
 
 Print Assumptions C10_cms_roundtrip.
 Print Assumptions C10_hll_roundtrip.
